@@ -1,8 +1,9 @@
 (* C11 tie (iterators of iter/tree.rs, taproot tree builder): the observations of the compiled
    library (Tables/RobustIterCasesGen.v, regenerated on every run by `verif-harness robust iters`)
-   are compared with the models INSIDE Coq.  The value printed last must be ([], []): the first
-   list holds the positions of the iterator rows that differ (with which of the five
-   comparisons failed), the second the taproot rows that differ (shape, implementation, model). *)
+   are compared with the models INSIDE Coq.  The two values printed last must be empty lists: the
+   first holds the positions of the iterator rows that differ (with which of the five
+   comparisons failed), the second the positions of the taproot rows that differ (with the
+   outcome codes and the numbers of leaves of the implementation and of the model). *)
 From Coq Require Import List NArith Bool.
 From Verif Require Import Bytes RobustModel RobustIterSpec RobustTapTreeModel RobustIterCasesGen.
 Import ListNotations.
@@ -41,11 +42,19 @@ Definition iter_bad := iter_bad_from 0 iter_rows.
 (* outcome codes: 0 = Err, 1 = Ok(depths of the leaves), 2 = Panic *)
 Definition tap_model (t : tshape) : N * list N :=
   match tap_parse t with ROk d => (1, d) | RErr _ => (0, []) | RPanic _ => (2, []) end.
-Definition tap_bad := map (fun row => (row, tap_model (fst row)))
-  (filter (fun row => let '(c, d) := snd row in let '(c', d') := tap_model (fst row) in negb ((c =? c') && leqb d d')) tap_rows).
+Fixpoint tap_bad_from (i : N) (rows : list (tshape * (N * list N))) : list (N * (N * N) * (N * N)) :=
+  match rows with
+  | [] => []
+  | (t, (c, d)) :: rest =>
+    let '(c', d') := tap_model t in
+    if (c =? c') && leqb d d' then tap_bad_from (i + 1) rest
+    else (i, (c, c'), (nlen d, nlen d')) :: tap_bad_from (i + 1) rest
+  end.
+(* (row position, (implementation's code, model's code), (number of leaves: implementation, model)) *)
+Definition tap_bad := tap_bad_from 0 tap_rows.
 
 Definition iter_counts := (length iter_rows, fold_left (fun a r => (a + rsize (fst r))%nat) iter_rows 0%nat,
                            length tap_rows, length (filter (fun row => fst (snd row) =? 0) tap_rows)).
 Eval vm_compute in iter_counts.
-Definition iter_mismatches := (iter_bad, tap_bad).
-Eval vm_compute in iter_mismatches.
+Eval vm_compute in iter_bad.
+Eval vm_compute in tap_bad.
